@@ -160,6 +160,7 @@ void World::sched_point() {
     bool yield = false;
     if (!events.empty() && events.top().t <= now) yield = true;
     Node &n = cur_node();
+    if (n.in_handler && ++n.handler_calls > call_budget && on_call_budget) on_call_budget(n);
     if (n.stall_until > now) yield = true;
     switch (sched.kind) {
     case SchedCfg::RAND: if (rng_sched.chance(sched.p_yield)) yield = true; break;
@@ -509,6 +510,7 @@ ssize_t __wrap_recv(int fd, void *buf, size_t len, int flags) {
     if (nd.is_listener) {
         nd.in_handler = true;
         nd.handler_steps = 0;
+        nd.handler_calls = 0;
         nd.handler_frame = f.id;
     }
     w.log("recv", f.id, n, f.data.data(), n);
@@ -632,7 +634,7 @@ ssize_t __wrap_read(int fd, void *buf, size_t len) {
         w.count("ev.timer_read");
         if (cnt > 1) w.count("ev.timer_multi_expiry");
         Node &nd = w.cur_node();
-        if (nd.is_listener) { nd.in_handler = true; nd.handler_steps = 0; nd.handler_frame = 0; }
+        if (nd.is_listener) { nd.in_handler = true; nd.handler_steps = 0; nd.handler_calls = 0; nd.handler_frame = 0; }
         return 8;
     }
     errno = EINVAL;
